@@ -275,3 +275,211 @@ Proof.
       * intros [Hv|[Hv _]]; auto.
       * intros Hv. destruct (in_dec str_eq_dec v layer); [now left|right; tauto].
 Qed.
+
+(* ---------- reachability is complete: with fuel = number of nodes every path is found ---------- *)
+Definition wf_graph (g : graph) : Prop := forall a b, In (a, b) (edges g) -> In a (nodes g) /\ In b (nodes g).
+
+Lemma wf_graph_rev g : wf_graph g -> wf_graph (rev_graph g).
+Proof.
+  intros H a b Hin. cbn in Hin. apply in_map_iff in Hin as [[x y] [E Hin]]. cbn in E. inversion E; subst.
+  destruct (H _ _ Hin). cbn. tauto.
+Qed.
+
+Lemma expand_fold_In g x : forall l acc,
+  In x (fold_left (fun acc n => union_str acc (succs g n)) l acc) <-> In x acc \/ exists s0, In s0 l /\ In x (succs g s0).
+Proof.
+  induction l as [|n l IH]; intros acc; cbn.
+  - split; [tauto|]. intros [H|[s0 [[] _]]]. exact H.
+  - rewrite IH, union_str_In. split.
+    + intros [[H|H]|[s0 [H1 H2]]]; [now left|right; exists n; auto|right; exists s0; auto].
+    + intros [H|[s0 [[<-|H1] H2]]]; [left; now left|left; now right|right; eauto].
+Qed.
+
+Lemma expand_In g seen x : In x (expand g seen) <-> In x seen \/ exists s0, In s0 seen /\ In (s0, x) (edges g).
+Proof.
+  unfold expand. rewrite expand_fold_In. split; intros [H|[s0 [H1 H2]]]; auto; right; exists s0; split; auto; now apply succs_In.
+Qed.
+
+Definition closedb (g : graph) (seen : list str) : bool :=
+  forallb (fun s0 => forallb (fun y => mem_str y seen) (succs g s0)) seen.
+
+Lemma closedb_true g seen : closedb g seen = true <-> (forall s0 y, In s0 seen -> In (s0, y) (edges g) -> In y seen).
+Proof.
+  unfold closedb. rewrite forallb_forall. split.
+  - intros H s0 y Hs He. specialize (H s0 Hs). rewrite forallb_forall in H. apply mem_str_In. apply H. now apply succs_In.
+  - intros H s0 Hs. apply forallb_forall. intros y Hy. apply mem_str_In. eapply H; eauto. now apply succs_In.
+Qed.
+
+Lemma filter_nil_intro {A} (f : A -> bool) l : (forall x, In x l -> f x = false) -> filter f l = [].
+Proof.
+  induction l as [|a l IH]; intros H; cbn; [reflexivity|]. rewrite (H a) by now left. apply IH. intros x Hx. apply H. now right.
+Qed.
+
+Lemma forallb_false_exists {A} (f : A -> bool) l : forallb f l = false -> exists x, In x l /\ f x = false.
+Proof.
+  induction l as [|a l IH]; cbn; [discriminate|]. destruct (f a) eqn:E; cbn; [|eauto].
+  intros H. destruct (IH H) as [x [H1 H2]]. eauto.
+Qed.
+
+Lemma filter_length_le {A} (f : A -> bool) l : length (filter f l) <= length l.
+Proof. induction l as [|a l IH]; cbn; [lia|]. destruct (f a); cbn; lia. Qed.
+
+Lemma expand_closed_id g seen : closedb g seen = true -> expand g seen = seen.
+Proof.
+  intros Hc. unfold expand.
+  assert (H : forall l acc, (forall s0, In s0 l -> forall y, In y (succs g s0) -> In y acc) ->
+                            fold_left (fun acc n => union_str acc (succs g n)) l acc = acc).
+  { induction l as [|n l IH]; intros acc Hl; cbn; [reflexivity|].
+    assert (E : union_str acc (succs g n) = acc).
+    { unfold union_str, diff_str. replace (filter (fun x => negb (mem_str x acc)) (succs g n)) with (@nil str); [now rewrite app_nil_r|].
+      symmetry. apply filter_nil_intro. intros y Hy. apply negb_false_iff. apply mem_str_In. apply (Hl n); auto. now left. }
+    rewrite E. apply IH. intros s0 Hs0. apply Hl. now right. }
+  apply H. intros s0 Hs y Hy. apply (proj1 (closedb_true g seen) Hc s0 y Hs). now apply succs_In.
+Qed.
+
+Lemma close_closed_id g : forall fuel seen, closedb g seen = true -> close fuel g seen = seen.
+Proof. induction fuel as [|fuel IH]; intros seen Hc; cbn; [reflexivity|]. rewrite (expand_closed_id g seen Hc). now apply IH. Qed.
+
+(* the number of nodes not yet seen *)
+Definition missing (g : graph) (seen : list str) : nat := length (filter (fun n => negb (mem_str n seen)) (nodes g)).
+
+Lemma filter_length_lt {A} (f h : A -> bool) l :
+  (forall x, f x = true -> h x = true) -> (exists y, In y l /\ h y = true /\ f y = false) ->
+  length (filter f l) < length (filter h l).
+Proof.
+  intros Hsub. induction l as [|a l IH]; intros [y [Hy [H1 H2]]]; [contradiction|]. cbn.
+  assert (Hle : length (filter f l) <= length (filter h l)).
+  { clear -Hsub. induction l as [|b l IHl]; cbn; [lia|]. destruct (f b) eqn:Ef; [rewrite (Hsub b Ef); cbn; lia|].
+    destruct (h b); cbn; lia. }
+  destruct Hy as [<-|Hy].
+  - rewrite H1, H2. cbn. lia.
+  - specialize (IH (ex_intro _ y (conj Hy (conj H1 H2)))). destruct (f a) eqn:Ef; [rewrite (Hsub a Ef); cbn; lia|].
+    destruct (h a); cbn; lia.
+Qed.
+
+Lemma close_is_closed g : wf_graph g -> forall fuel seen, missing g seen <= fuel ->
+  closedb g (close fuel g seen) = true /\ incl seen (close fuel g seen).
+Proof.
+  intros Hwf. induction fuel as [|fuel IH]; intros seen Hm.
+  - cbn. split; [|apply incl_refl]. apply closedb_true. intros s0 y Hs He.
+    destruct (Hwf _ _ He) as [_ Hy]. destruct (mem_str y seen) eqn:E; [now apply mem_str_In|].
+    exfalso. unfold missing in Hm. assert (Hin : In y (filter (fun n => negb (mem_str n seen)) (nodes g))).
+    { apply filter_In. split; [assumption|]. now rewrite E. }
+    destruct (filter _ (nodes g)); [contradiction|cbn in Hm; lia].
+  - cbn [close]. destruct (closedb g seen) eqn:Ec.
+    + rewrite (expand_closed_id g seen Ec), (close_closed_id g fuel seen Ec). split; [assumption|apply incl_refl].
+    + assert (Hnew : exists y, In y (nodes g) /\ In y (expand g seen) /\ ~ In y seen).
+      { destruct (forallb (fun s0 => forallb (fun y => mem_str y seen) (succs g s0)) seen) eqn:E; [unfold closedb in Ec; congruence|].
+        apply forallb_false_exists in E as [s0 [Hs E]]. apply forallb_false_exists in E as [y [Hy E]].
+        apply mem_str_not_In in E. apply succs_In in Hy. exists y. split; [apply (Hwf _ _ Hy)|]. split; [|assumption].
+        apply expand_In. right. eauto. }
+      destruct Hnew as [y [Hy1 [Hy2 Hy3]]].
+      assert (Hlt : missing g (expand g seen) < missing g seen).
+      { unfold missing. apply filter_length_lt.
+        - intros x Hx. apply negb_true_iff in Hx. apply negb_true_iff. apply mem_str_not_In. apply mem_str_not_In in Hx.
+          intros Hin. apply Hx. apply expand_In. now left.
+        - exists y. split; [assumption|]. split; [apply negb_true_iff; now apply mem_str_not_In|].
+          apply negb_false_iff. now apply mem_str_In. }
+      destruct (IH (expand g seen)) as [H1 H2]; [lia|]. split; [assumption|].
+      intros x Hx. apply H2. apply expand_In. now left.
+Qed.
+
+Lemma closed_gpath g seen : closedb g seen = true -> forall a b, gpath g a b -> In a seen -> In b seen.
+Proof.
+  intros Hc a b Hp. induction Hp; intros Ha; [assumption|]. apply IHHp.
+  eapply (proj1 (closedb_true g seen) Hc); eauto.
+Qed.
+
+Lemma missing_le g seen : missing g seen <= length (nodes g).
+Proof. unfold missing. apply filter_length_le. Qed.
+
+Theorem descendants_complete g n x : wf_graph g ->
+  (exists y, In (n, y) (edges g) /\ gpath g y x) -> x <> n -> In x (descendants g n).
+Proof.
+  intros Hwf [y [He Hp]] Hne. unfold descendants, reach. apply filter_In. split.
+  - destruct (close_is_closed g Hwf (length (nodes g)) (dedup (flat_map (succs g) [n])) (missing_le _ _)) as [Hc Hi].
+    eapply (closed_gpath g _ Hc y x Hp). apply Hi. apply dedup_In. cbn. rewrite app_nil_r. now apply succs_In.
+  - apply negb_true_iff. apply str_eqb_neq. exact Hne.
+Qed.
+
+Lemma gpath_rev' g x y : gpath g x y -> gpath (rev_graph g) y x.
+Proof.
+  induction 1; [constructor|]. eapply gpath_snoc; [eassumption|]. cbn. apply in_map_iff. exists (x, y). auto.
+Qed.
+
+Theorem ancestors_complete g n x : wf_graph g -> gpath g x n -> x <> n -> In x (ancestors g n).
+Proof.
+  intros Hwf Hp Hne. unfold ancestors. apply descendants_complete; [now apply wf_graph_rev| |assumption].
+  (* the last edge of the path *)
+  assert (H : exists y, gpath g x y /\ In (y, n) (edges g)).
+  { clear Hwf. induction Hp; [congruence|]. destruct (str_eq_dec y z) as [->|Hyz].
+    - exists x. split; [constructor|assumption].
+    - destruct (IHHp Hyz) as [w [W1 W2]]. exists w. split; [econstructor; eauto|assumption]. }
+  destruct H as [y [Hy He]]. exists y. split; [cbn; apply in_map_iff; exists (y, n); auto|]. now apply gpath_rev'.
+Qed.
+
+(* ---------- completeness of Kahn layering: a graph with a rank function is layered ---------- *)
+Lemma min_rank_exists (r : str -> nat) : forall l : list str, l <> [] ->
+  exists m, In m l /\ forall x, In x l -> r m <= r x.
+Proof.
+  induction l as [|a l IH]; intros Hne; [congruence|]. destruct l as [|b l'].
+  - exists a. split; [now left|]. intros x [<-|[]]. lia.
+  - destruct IH as [m [Hm Hmin]]; [discriminate|]. destruct (Nat.le_gt_cases (r a) (r m)) as [Hle|Hgt].
+    + exists a. split; [now left|]. intros x [<-|Hx]; [lia|]. specialize (Hmin x Hx). lia.
+    + exists m. split; [now right|]. intros x [<-|Hx]; [lia|]. now apply Hmin.
+Qed.
+
+Lemma filter_true_id {A} (l : list A) : filter (fun _ => true) l = l.
+Proof. induction l as [|a l IH]; cbn; [reflexivity|now rewrite IH]. Qed.
+
+Lemma kahn_complete g (r : str -> nat) : forall fuel rem,
+  (forall u v, In u rem -> In v rem -> In u (preds g v) -> r u < r v) ->
+  length rem <= fuel -> exists ls, kahn fuel g rem = Some ls.
+Proof.
+  induction fuel as [|fuel IH]; intros rem Hr Hlen.
+  - destruct rem; [cbn; eauto|cbn in Hlen; lia].
+  - destruct rem as [|r0 rem0]; [cbn; eauto|]. rewrite kahn_cons. set (rem := r0 :: rem0) in *.
+    destruct (min_rank_exists r rem) as [m [Hm Hmin]]; [discriminate|].
+    assert (Hready : ready g rem m = true).
+    { unfold ready. apply forallb_forall. intros u Hu. apply negb_true_iff. apply mem_str_not_In. intros Hin.
+      pose proof (Hr u m Hin Hm Hu). specialize (Hmin u Hin). lia. }
+    assert (Hml : In m (filter (ready g rem) rem)) by (apply filter_In; auto).
+    destruct (filter (ready g rem) rem) as [|a b] eqn:El; [contradiction|]. set (layer := a :: b) in *.
+    destruct (IH (diff_str rem layer)) as [ls Hls].
+    + intros u v Hu Hv. apply diff_str_In in Hu as [Hu _]. apply diff_str_In in Hv as [Hv _]. now apply Hr.
+    + assert (Hlt : length (diff_str rem layer) < length rem).
+      { unfold diff_str. rewrite <- (filter_true_id rem) at 2.
+        apply filter_length_lt; [intros; reflexivity|]. exists m. split; [assumption|]. split; [reflexivity|].
+        apply negb_false_iff. now apply mem_str_In. }
+      lia.
+    + rewrite Hls. eauto.
+Qed.
+
+Theorem topo_generations_complete g (r : str -> nat) :
+  (forall u v, In u (nodes g) -> In v (nodes g) -> In (u, v) (edges g) -> r u < r v) ->
+  exists ls, topo_generations g = Some ls.
+Proof.
+  intros H. unfold topo_generations. apply (kahn_complete g r); [|lia]. intros u v Hu Hv Hp. apply H; auto.
+  unfold preds in Hp. apply in_map_iff in Hp as [[a b] [E Hp]]. cbn in E. subst a. apply filter_In in Hp as [Hp E].
+  cbn in E. apply str_eqb_eq in E. now subst b.
+Qed.
+
+(* a node of lower rank comes earlier in the concatenated layers *)
+Lemma app_split_notin {A} (a c l1 l2 : list A) v : a ++ c = l1 ++ v :: l2 -> ~ In v a ->
+  exists l1', l1 = a ++ l1' /\ c = l1' ++ v :: l2.
+Proof.
+  revert l1. induction a as [|x a IH]; intros l1 H Hn; [exists l1; auto|]. destruct l1 as [|y l1]; cbn in H.
+  - inversion H; subst. exfalso. apply Hn. now left.
+  - inversion H; subst. destruct (IH l1 H2) as [l1' [E1 E2]]; [intros Hi; apply Hn; now right|].
+    exists l1'. split; [cbn; now rewrite E1|assumption].
+Qed.
+
+Lemma rank_lt_before : forall ls u v l1 l2, In u (concat ls) -> rank_of ls u < rank_of ls v ->
+  concat ls = l1 ++ v :: l2 -> In u l1.
+Proof.
+  induction ls as [|a ls IH]; intros u v l1 l2 Hu Hr Hc; [contradiction|]. cbn in Hr, Hc, Hu.
+  destruct (mem_str v a) eqn:Ev; [lia|]. apply mem_str_not_In in Ev.
+  destruct (app_split_notin a (concat ls) l1 l2 v Hc Ev) as [l1' [-> E2]]. apply in_app_iff.
+  destruct (mem_str u a) eqn:Eu; [left; now apply mem_str_In|]. apply mem_str_not_In in Eu. right.
+  apply in_app_iff in Hu as [Hu|Hu]; [contradiction|]. eapply IH; eauto. lia.
+Qed.
